@@ -84,6 +84,18 @@ static LEDGER: std::sync::Mutex<Vec<(usize, usize)>> = std::sync::Mutex::new(Vec
 static GRAVE: std::sync::Mutex<Vec<(usize, usize)>> = std::sync::Mutex::new(Vec::new());
 static DOUBLE_UNMAPS: std::sync::Mutex<Vec<(usize, usize)>> = std::sync::Mutex::new(Vec::new());
 
+/// Every live mapping made through this seam, whatever its flags (a
+/// reservation may be anonymous and private), and fixed-address mappings that
+/// were placed over a range not wholly inside one of them: such a range is a
+/// hole in the address space that any other thread's mmap may have taken in
+/// the meantime, and `MAP_FIXED` silently replaces what is there.
+static ALL_LIVE: std::sync::Mutex<Vec<(usize, usize)>> = std::sync::Mutex::new(Vec::new());
+static FIXED_OVER_UNOWNED: std::sync::Mutex<Vec<(usize, usize)>> = std::sync::Mutex::new(Vec::new());
+
+pub fn fixed_over_unowned() -> Vec<(usize, usize)> {
+    FIXED_OVER_UNOWNED.lock().unwrap_or_else(|e| e.into_inner()).clone()
+}
+
 pub fn double_unmaps() -> Vec<(usize, usize)> {
     DOUBLE_UNMAPS.lock().unwrap_or_else(|e| e.into_inner()).clone()
 }
@@ -97,6 +109,8 @@ pub fn ledger_start() {
     LEDGER.lock().unwrap_or_else(|e| e.into_inner()).clear();
     GRAVE.lock().unwrap_or_else(|e| e.into_inner()).clear();
     DOUBLE_UNMAPS.lock().unwrap_or_else(|e| e.into_inner()).clear();
+    ALL_LIVE.lock().unwrap_or_else(|e| e.into_inner()).clear();
+    FIXED_OVER_UNOWNED.lock().unwrap_or_else(|e| e.into_inner()).clear();
     LEDGER_ON.store(true, std::sync::atomic::Ordering::SeqCst);
 }
 
@@ -316,8 +330,20 @@ pub unsafe extern "C" fn mmap(addr: *mut c_void, len: size_t, prot: c_int, flags
             return libc::MAP_FAILED;
         }
     }
+    if flags & libc::MAP_FIXED != 0 && ledger_on() {
+        let live = ALL_LIVE.lock().unwrap_or_else(|e| e.into_inner());
+        let covered: usize = overlap(&live, addr as usize, len).iter().map(|x| x.1).sum();
+        if covered < len {
+            FIXED_OVER_UNOWNED.lock().unwrap_or_else(|e| e.into_inner()).push((addr as usize, len));
+        }
+    }
     // SAFETY: forwarding.
     let r = unsafe { libc::syscall(libc::SYS_mmap, addr, len, prot, flags, fd, off) };
+    if r != -1 && ledger_on() {
+        let mut live = ALL_LIVE.lock().unwrap_or_else(|e| e.into_inner());
+        untrack(&mut live, r as usize, len);
+        live.push((r as usize, len));
+    }
     if armed() && r != -1 {
         track_map(r as usize, len);
     }
@@ -359,6 +385,8 @@ pub unsafe extern "C" fn munmap(addr: *mut c_void, len: size_t) -> c_int {
         let released = overlap(&l, addr as usize, len);
         untrack(&mut l, addr as usize, len);
         g.extend(released);
+        let mut live = ALL_LIVE.lock().unwrap_or_else(|e| e.into_inner());
+        untrack(&mut live, addr as usize, len);
     }
     if armed() {
         STATS.with(|s| {
